@@ -69,11 +69,15 @@ def m_fatal_strikes(it, case):
 
 
 def m_float_short(it, case):
-    """T2: the float delta is exactly one short and a request exceeds 2^53 milli-units (beyond the range in which
-    float64 represents the integers exactly)."""
-    if it['detail'] != 'C05:short:1':
-        return False
-    return max(case.get('cpuReq', 0), case.get('memReq', 0)) >= 2 ** 53
+    """T2: the float delta is exactly one short on an input outside the region in which Lean proves the float result
+    sufficient (C05_float_sufficient: 800*R + 4*C*T < 2^53 for the request R and capacity C of a resource, i.e. error
+    budget below the granularity 1/(s*T); from zero: 400*R < 2^53). Inside that region a short delta is NOT this finding."""
+    T = case.get('T', 0)
+    if it['detail'] == 'C05:short:1':
+        return any(800 * case.get(r, 0) + 4 * case.get(c, 0) * T >= 2 ** 53 for r, c in (('cpuReq', 'cpuCap'), ('memReq', 'memCap')))
+    if it['detail'] == 'C05:short0:1':
+        return any(400 * case.get(r, 0) >= 2 ** 53 for r in ('cpuReq', 'memReq'))
+    return False
 
 
 MATCHERS = {'float_delta_one_short_huge': m_float_short, 'fatal_rebuild_failed': m_fatal_rebuild, 'fatal_fleet_strikes': m_fatal_strikes, 'taint_value_wraps_in_time_unix': m_taint_wrap, 'doc_key_scale_up_cool_down_timeout': m_doc_key_timeout}
